@@ -431,6 +431,10 @@ func (r *router) SendContribution(_ context.Context, recipient *core.Endpoint, a
 	if !ok {
 		return bls.SecretKey{}, nil, errors.New("no such instance")
 	}
+	if df := r.c.fault; df != nil && df.kind == "delayall" && df.msg == "contribute" && (df.from == 0 || df.from == r.from.id) {
+		ms, _ := strconv.Atoi(df.arg)
+		time.Sleep(time.Duration(ms) * time.Millisecond)
+	}
 	f := r.faultFor("contribute", recipient.ID)
 	sendSecret, sendVec := secret, vVec
 	replyAlter := ""
@@ -943,6 +947,31 @@ func dkgEngine(workdir string) {
 				return "ok"
 			}
 			res = st(err1) + " " + st(err2)
+		case "gensp":
+			// gensp <client> <t> <n> <ini:account> <ini:account> …: several generations for DIFFERENT names started at the same
+			// moment through the given initiators (same wallet, same participants); result: ok/err per generation
+			creds := &checker.Credentials{Client: unhexStr(f[1]), RequestID: "r"}
+			c.log = nil
+			outs := make([]string, len(f)-4)
+			var wg sync.WaitGroup
+			start := make(chan struct{})
+			for gi, spec := range f[4:] {
+				p := strings.SplitN(spec, ":", 2)
+				wg.Add(1)
+				go func() {
+					defer wg.Done()
+					<-start
+					_, _, err := c.insts[u64(p[0])].process.OnGenerate(context.Background(), creds, unhexStr(p[1]), []byte("pass"), uint32(u64(f[2])), uint32(u64(f[3])))
+					if err != nil {
+						outs[gi] = "err"
+					} else {
+						outs[gi] = "ok"
+					}
+				}()
+			}
+			close(start)
+			wg.Wait()
+			res = strings.Join(outs, " ")
 		case "holds":
 			var parts []string
 			for _, id := range c.ids {
@@ -971,6 +1000,20 @@ func dkgEngine(workdir string) {
 			in := c.insts[u64(f[1])]
 			r, sig := in.signer.SignBeaconAttestation(context.Background(), &checker.Credentials{Client: "client1", RequestID: "r"},
 				unhexStr(f[2]), nil, parseAtt(strings.Split(f[3], ",")))
+			res = posStr(r, sig)
+		case "iattb":
+			// iattb <inst> <account> <att>: the attestation while that instance's slashing-protection store refuses writes
+			// (badger's write-refusal state, reads still served)
+			in := c.insts[u64(f[1])]
+			flag := blockWritesFlag(in.rules)
+			if flag == nil {
+				res = "bad:no-flag"
+				break
+			}
+			atomic.StoreInt32(flag, 1)
+			r, sig := in.signer.SignBeaconAttestation(context.Background(), &checker.Credentials{Client: "client1", RequestID: "r"},
+				unhexStr(f[2]), nil, parseAtt(strings.Split(f[3], ",")))
+			atomic.StoreInt32(flag, 0)
 			res = posStr(r, sig)
 		case "iatts":
 			// the same through the batch endpoint (a batch of one)
@@ -1120,6 +1163,23 @@ func dkgEngine(workdir string) {
 			in := c.insts[u64(f[1])]
 			_, err := in.handler.Execute(callerCtx(hs(f[2])), wire(&pb.ExecuteRequest{Account: unhexStr(f[3])}, &pb.ExecuteRequest{}))
 			res = errClassH(err)
+		case "hexecute2":
+			// hexecute2 <inst> <account> <caller A> <caller B> <ms>: Execute from caller A whose contribution exchanges each take
+			// <ms> (network latency); a third of that later, while A's request is in flight, the same Execute from caller B;
+			// result "<class of A> <class of B>"
+			in := c.insts[u64(f[1])]
+			ms, _ := strconv.Atoi(f[5])
+			c.fault = &dkgFault{kind: "delayall", msg: "contribute", from: u64(f[1]), arg: f[5]}
+			ra := make(chan error, 1)
+			go func() {
+				_, err := in.handler.Execute(callerCtx(hs(f[3])), wire(&pb.ExecuteRequest{Account: unhexStr(f[2])}, &pb.ExecuteRequest{}))
+				ra <- err
+			}()
+			time.Sleep(time.Duration(ms/3) * time.Millisecond)
+			_, errB := in.handler.Execute(callerCtx(hs(f[4])), wire(&pb.ExecuteRequest{Account: unhexStr(f[2])}, &pb.ExecuteRequest{}))
+			errA := <-ra
+			c.fault = nil
+			res = errClassH(errA) + " " + errClassH(errB)
 		case "hcommit":
 			in := c.insts[u64(f[1])]
 			_, err := in.handler.Commit(callerCtx(hs(f[2])), wire(&pb.CommitRequest{Account: unhexStr(f[3]), ConfirmationData: bytes.Repeat([]byte{1}, 32)}, &pb.CommitRequest{}))
